@@ -71,6 +71,7 @@ type engine struct {
 	order   []string
 	pool    []packet
 	anyExp  bool // some observer expired some node in this case (C02's quantifier has no expiry)
+	lastItems int // items carried by the last delivermax reply (for the generator)
 }
 
 // New returns the engine.
@@ -430,6 +431,98 @@ func (e *engine) Step(ws []string, o *Out) string {
 			o.Fail("C02", "own-state-changed-by-message", "node="+Hx(g.id))
 		}
 		return e.finish(g, ws, o, false, sent, false)
+	case "delivermax":
+		// like `deliver` of a digest packet, but the reply is encoded with a REAL byte limit;
+		// `items` is the number of whole items the generator observed (the model's cut)
+		i := Atoi(ws[1])
+		if i < 0 || i >= len(e.pool) {
+			return "err no-packet"
+		}
+		max, items := Atoi(parseKV("max=", ws[2])), Atoi(parseKV("items=", ws[3]))
+		pk := e.pool[i]
+		if !pk.digest {
+			return "err not-digest"
+		}
+		g := e.byAddr(pk.dst)
+		if g == nil {
+			return "err no-dst"
+		}
+		h, d, err := pg.VDecodeDigest(pk.b)
+		if err != nil {
+			return "err undecodable"
+		}
+		g.st.ApplyDigest(d)
+		delta := g.st.Delta(d, false)
+		b, err := pg.VEncodeDelta(pg.VDeltaHeader{NodeID: g.id, Addr: g.addr}, delta, max)
+		if err != nil {
+			return "err header-too-big"
+		}
+		if len(b) > max {
+			o.Fail("C13", "exceeds-max", fmt.Sprintf("len=%d max=%d", len(b), max))
+		}
+		_, dd, err := pg.VDecodeDelta(b)
+		if err != nil {
+			o.Fail("C13", "own-packet-undecodable", err.Error())
+			return "err undecodable"
+		}
+		e.lastItems = deltaItems(dd)
+		if items >= 0 && e.lastItems != items {
+			return fmt.Sprintf("err items-mismatch real=%d line=%d", e.lastItems, items)
+		}
+		// C03 stall oracle: the reply names a node with outstanding entries but carries none of them
+		for k, de := range delta {
+			if len(de.Entries) == 0 {
+				continue
+			}
+			carried := 0
+			if k < len(dd) {
+				carried = len(dd[k].Entries)
+			}
+			if carried == 0 {
+				one, _ := pg.VEncodeDelta(pg.VDeltaHeader{NodeID: g.id, Addr: g.addr}, pg.VDelta{{ID: de.ID, Addr: de.Addr, Entries: de.Entries[:1]}}, huge)
+				if len(one) > max {
+					o.Fail("C03", "stalled-oversize-entry", fmt.Sprintf("node=%s first outstanding entry needs %d bytes > max=%d (starves every later update of that node)", Hx(de.ID), len(one), max))
+				} else if k == 0 {
+					o.Fail("C03", "stalled-although-first-entry-fits", fmt.Sprintf("node=%s needs=%d max=%d", Hx(de.ID), len(one), max))
+				}
+			}
+			break
+		}
+		sent := []packet{{src: g.id, srcAddr: g.addr, dst: h.Addr, b: b}}
+		if h.Request {
+			// digest reply with no entries (the model's perm = [], dcut = 0)
+			db := encodeDigestCut(pg.VDigestHeader{NodeID: g.id, Addr: g.addr, Request: false}, nil, 0, o)
+			sent = append(sent, packet{digest: true, src: g.id, srcAddr: g.addr, dst: h.Addr, b: db})
+		}
+		e.pool = append(e.pool, sent...)
+		o.Count("deliver:max")
+		return e.finish(g, ws, o, false, sent, false)
+	case "converged":
+		// are all listed nodes' views of each other exactly the owners' states?
+		ids := strings.Split(ws[1], ",")
+		conv := true
+		for _, r := range ids {
+			for _, a := range ids {
+				if r == a {
+					continue
+				}
+				gr, ga := e.nodes[Unhx(r)], e.nodes[Unhx(a)]
+				if gr == nil || ga == nil {
+					conv = false
+					continue
+				}
+				V, ok := gr.st.Node(ga.id)
+				O := ga.st.LocalNode()
+				if !ok || V.Version != O.Version || showEntries(V.Entries) != showEntries(O.Entries) {
+					conv = false
+				}
+			}
+		}
+		if len(ws) > 2 && ws[2] == "expect=1" && !conv {
+			o.Fail("C03", "not-converged-after-settle", "nodes="+ws[1])
+		}
+		o.Count("oracle:C03:converged")
+		return "conv " + B01(conv)
 	case "join", "leavestream":
 		n, ok1 := e.nodes[Unhx(ws[1])]
 		m, ok2 := e.nodes[Unhx(ws[2])]
@@ -1000,6 +1093,58 @@ func (e *engine) Gen(r *rand.Rand, n int, tier string, w *bufio.Writer) {
 				default:
 					emit("expire %s %d", Hx(id), Pick(r, []int{-3600, 30, 90, 90, 600}))
 				}
+			}
+			// a pull whose reply is cut by a REAL byte limit (exercises encodeDelta's own loop)
+			if r.Intn(12) == 0 && len(sim.pool) > 0 {
+				for pi := len(sim.pool) - 1; pi >= 0 && pi >= len(sim.pool)-6; pi-- {
+					if sim.pool[pi].digest {
+						max := Pick(r, []int{200, 400, 1400, 1400})
+						l := fmt.Sprintf("delivermax %d max=%d items=", pi, max)
+						func() {
+							defer func() { _ = recover() }()
+							sim.Step(strings.Fields(l+"-1"), o)
+						}()
+						fmt.Fprintf(w, "%s%d\n", l, sim.lastItems)
+						break
+					}
+				}
+			}
+		}
+		// settle: updates stop; every ordered pair of alive nodes pulls (digest, delta reply,
+		// digest reply, delta) with everything fitting; then every view must equal its owner
+		if mode < 6 {
+			al := alive()
+			for round := 0; round < 3; round++ {
+				for _, a := range al {
+					for _, b := range al {
+						if a == b {
+							continue
+						}
+						k := len(sim.nodes[a].st.Nodes())
+						full := make([]string, k)
+						for i := range full {
+							full[i] = strconv.Itoa(i)
+						}
+						emit("senddigest %s %s 1 cut=1000 p=%s", Hx(a), Hx("a"+b), strings.Join(full, ","))
+						di := len(sim.pool) - 1
+						kb := len(sim.nodes[b].st.Nodes()) + 1
+						fullb := make([]string, kb)
+						for i := range fullb {
+							fullb[i] = strconv.Itoa(i)
+						}
+						emit("deliver %d cut=1000 p=%s dcut=1000", di, strings.Join(fullb, ","))
+						emit("deliver %d cut=1000 p=- dcut=0", di+1) // delta reply at a
+						emit("deliver %d cut=1000 p=- dcut=0", di+2) // digest reply at a -> delta to b
+						emit("deliver %d cut=1000 p=- dcut=0", len(sim.pool)-1)
+					}
+				}
+			}
+			var hx []string
+			for _, a := range al {
+				hx = append(hx, Hx(a))
+			}
+			if len(hx) >= 2 {
+				emit("converged %s expect=1", strings.Join(hx, ","))
 			}
 		}
 	}
